@@ -63,7 +63,7 @@ func hostClient() {
 	var cl TokClient
 	opts := []jsonrpc.Option{jsonrpc.WithReconnectBackoff(5*time.Millisecond, 20*time.Millisecond)}
 	if os.Getenv("VERIF_HOST_HANDLER") == "1" {
-		opts = append(opts, jsonrpc.WithClientHandler("Rev", &RevHandler{ID: "hosted"}), jsonrpc.WithClientHandlerAlias("rev.alias", "Rev.Aliased"))
+		opts = append(opts, jsonrpc.WithClientHandler("Rev", &RevHandler{ID: "hosted"}), jsonrpc.WithClientHandler("Rev2", &RevHandler2{ID: "hosted"}), jsonrpc.WithClientHandlerAlias("rev.alias", "Rev.Aliased"))
 	}
 	closer, err := jsonrpc.NewMergeClient(context.Background(), os.Getenv("VERIF_TARGET"), "Tok", []interface{}{&cl}, nil, opts...)
 	if err != nil {
